@@ -4,6 +4,9 @@
 use crate::serializer::default_protocol_definitions::*;
 use crate::serializer::protocol_reader::ProtocolReader;
 use byteorder::ReadBytesExt;
+#[cfg(rfsm_verif)]
+use crate::verif_seams::collections::HashMap;
+#[cfg(not(rfsm_verif))]
 use std::collections::HashMap;
 
 #[cfg(feature = "Debug_Serializer")]
